@@ -194,6 +194,13 @@ def check_case(case):
         again = dc.ChunkedDistanceMatrix.concat(list(reversed(loaded)))
         require(again.is_complete() and np.array_equal(again.to_dense(), combined.to_dense() if combined.is_complete() else again.to_dense()), "assembled.repeatable", "combining the same loaded chunks a second time (reversed order) gives another matrix")
         require(combined.is_complete(), "assembled.complete", lambda: "assembled matrix incomplete (order %r, %d/%d values)" % (case["order"], combined.current_index, pairs))
+        # the chunks folded pairwise with combine() itself, twice in one process (second time in reversed order)
+        for tag_, seq_ in (("first", list(case["order"])), ("second", list(reversed(case["order"])))):
+            acc = dc.ChunkedDistanceMatrix.load(chunk_files[seq_[0]])
+            for c_ in seq_[1:]:
+                acc = acc.combine(dc.ChunkedDistanceMatrix.load(chunk_files[c_]))
+            require(acc.is_complete(), "folded.complete", lambda: "chunks folded with combine() (%s fold of this process, order %r) hold %d of %d pairs" % (tag_, seq_, acc.current_index, pairs))
+            require(np.array_equal(acc.to_dense(), dense1), "folded.equals_single", lambda: "chunks folded with combine() (%s fold, order %r) differ from the single-chunk matrix" % (tag_, seq_))
         dense = combined.to_dense()
         require(np.array_equal(combined.to_dense(), dense), "assembled.to_dense_repeatable", "to_dense gives another matrix the second time")
         require(np.array_equal(dense, dense1), "assembled.equals_single", lambda: "assembled %r != single-chunk %r (order %r)" % (dense.tolist(), dense1.tolist(), case["order"]))
